@@ -1515,7 +1515,10 @@ impl Date {
             -1 => self.yesterday(),
             1 => self.tomorrow(),
             days => {
-                let days = UnixEpochDay::try_new("days", days).with_context(
+                // The number of days here is a difference between two
+                // dates, and so its range is that of the days in a span and
+                // not that of a Unix epoch day.
+                let days = t::SpanDays::try_new("days", days).with_context(
                     || {
                         err!(
                             "{days} computed from duration {duration:?} \
@@ -1523,8 +1526,9 @@ impl Date {
                         )
                     },
                 )?;
-                let days =
-                    self.to_unix_epoch_day().try_checked_add("days", days)?;
+                let days = self
+                    .to_unix_epoch_day()
+                    .try_checked_add("days", UnixEpochDay::rfrom(days))?;
                 Ok(Date::from_unix_epoch_day(days))
             }
         }
